@@ -34,6 +34,8 @@ def canon(v, fn, an):
         for n, (_, _, _, b) in enumerate(sorted(lst)):
             ordinals[(callee, b)] = n
 
+    depth = [0]
+
     def c(x):
         if not isinstance(x, tuple) or not x:
             return x
@@ -51,7 +53,19 @@ def canon(v, fn, an):
             # closures are named relative to their parent function
             return ("agg", "closure:" + x[1].rsplit("::", 1)[-1], tuple(c(a) for a in x[2]))
         if t == "phi":
-            return ("phi", c(x[2]))
+            nm = c(x[2])
+            if isinstance(nm, tuple) and len(nm) == 2 and nm[0] == "local" and (nm[1] is None or str(nm[1]).startswith("_")) and depth[0] < 3:
+                # a join in an unnamed temporary (the result of a spliced-in helper): named by what flows into it, so that
+                # two functions using the same helper agree
+                from ..srules import leaf_values
+                depth[0] += 1
+                try:
+                    ls = leaf_values(an, x) or []
+                    if ls and not any(l == x for l in ls):
+                        return ("phi*", tuple(sorted(repr(c(l)) for l in ls)))
+                finally:
+                    depth[0] -= 1
+            return ("phi", nm)
         if t == "local":
             return ("local", fn.local_name(x[1]))
         if t == "param":
@@ -196,8 +210,17 @@ def mirror(ctx, s):
         # the value argument of the key builder
         kb = find_values(key, lambda x: x[0] == "call" and x[1].rsplit("::", 1)[-1].startswith("key_"))
         vals = []
+        via_payload = False
         if kb:
+            from ..srules import leaf_values as _lv
             for a in kb[0][2]:
+                if a[0] == "proj" and contains_value(a, lambda x: x[0] == "phi"):
+                    # the letter / value handed over in a small result value of a shared helper: what flowed into it
+                    ls = [l for l in (_lv(an_ins, a) or []) if l[0] == "proj" and contains_value(l, lambda x: x[0] == "call" and x[1].endswith("::next"))]
+                    if ls:
+                        vals += ls
+                        via_payload = True
+                        continue
                 if a[0] == "proj" and contains_value(a, lambda x: x[0] == "call" and x[1].endswith("::next")):
                     vals.append(a)
         bad = False
@@ -217,6 +240,13 @@ def mirror(ctx, s):
         if not kb:
             s.add("S-COVER", ins, "every-tag-value-indexed", table, info["sp"], UNDECIDED,
                   "the %s key is assembled without a key builder call: what the put depends on is not decided" % table, b)
+            continue
+        if not vals and kb and any(a[0] == "proj" and contains_value(a, lambda x: x[0] in ("phi", "phi*")) for a in kb[0][2]):
+            via_payload, bad = True, True
+        if bad and via_payload:
+            s.add("S-COVER", ins, "every-tag-value-indexed", table, info["sp"], UNDECIDED,
+                  "letter and value reach the %s key through a shared helper's result value; what the put depends on is not "
+                  "separated from that value: not decided" % table, b)
             continue
         s.add("S-COVER", ins, "every-tag-value-indexed", table, info["sp"], PROVED if (vals and not bad) else VIOLATION,
               "entries are written for every single-letter tag with a value, whatever the value is" if (vals and not bad) else
